@@ -20,6 +20,8 @@ using psv::Rng;
 // ------------------------------------------------------------------ counting allocator
 struct Ledger {
   std::map<void*, size_t> live;
+  std::map<void*, int> arena_of;   // which allocator instance (arena) handed the block out
+  long foreign = 0;                 // blocks returned to another arena than the one they came from
   std::vector<std::string> ev;
   long bad = 0, nulld = 0;
   long countdown = -1; // -1: never fail; k>=0: k more allocations succeed, then one throws
@@ -28,16 +30,22 @@ struct Ledger {
 };
 static Ledger G;
 
+// The allocator is stateful: every table object is constructed with its own arena number, and a block must go
+// back to the arena it came from (instances are NOT interchangeable: operator== compares the arena), as for a
+// pool or shared-memory allocator.  A default-constructed allocator is arena 0.
+static int g_next_arena = 1;
 template <typename T> struct CA {
   typedef T value_type;
-  CA() {}
-  template <typename U> CA(const CA<U>&) {}
+  int arena;
+  CA() : arena(0) {}
+  explicit CA(int a) : arena(a) {}
+  template <typename U> CA(const CA<U>& o) : arena(o.arena) {}
   T* allocate(size_t n) {
     if (G.countdown == 0) { G.countdown = -1; throw std::bad_alloc(); }
     if (G.countdown > 0) G.countdown--;
     size_t b = n * sizeof(T);
     void* p = malloc(b ? b : 1);
-    G.live[p] = b; G.nalloc++;
+    G.live[p] = b; G.arena_of[p] = arena; G.nalloc++;
     G.ev.push_back("a" + std::to_string(b));
     return static_cast<T*>(p);
   }
@@ -47,17 +55,20 @@ template <typename T> struct CA {
     auto it = G.live.find((void*)p);
     if (it == G.live.end()) { G.bad++; G.ev.push_back("x" + std::to_string(b)); return; }           // double free / foreign
     if (it->second != b) { G.bad++; G.ev.push_back("d" + std::to_string(b)); return; }               // wrong size: block stays live
+    if (G.arena_of[(void*)p] != arena) { G.foreign++; G.bad++; }                                      // returned to the wrong arena
     G.ev.push_back("d" + std::to_string(b));
-    G.live.erase(it); free(p);
+    G.live.erase(it); G.arena_of.erase((void*)p); free(p);
   }
   template <typename U> struct rebind { typedef CA<U> other; };
-  bool operator==(const CA&) const { return true; }
-  bool operator!=(const CA&) const { return false; }
+  bool operator==(const CA& o) const { return arena == o.arena; }
+  bool operator!=(const CA& o) const { return arena != o.arena; }
 };
 template <> struct CA<void> {
   typedef void value_type;
-  CA() {}
-  template <typename U> CA(const CA<U>&) {}
+  int arena;
+  CA() : arena(0) {}
+  explicit CA(int a) : arena(a) {}
+  template <typename U> CA(const CA<U>& o) : arena(o.arena) {}
   template <typename U> struct rebind { typedef CA<U> other; };
 };
 typedef photospline::splinetable<CA<void>> CT;
@@ -245,10 +256,10 @@ static std::string exec(const Op& o) {
   CT* b = (o.j >= 0 && o.j < NSLOT) ? slot[o.j] : nullptr;
   try {
     switch (o.tag) {
-      case 'C': if (a) return "skip"; slot[o.i] = new CT(); return "ok";
+      case 'C': if (a) return "skip"; slot[o.i] = new CT(CA<void>(g_next_arena++)); return "ok";
       case 'F': { if (a) return "skip";
         // the constructor may throw: then no object exists and no destructor runs
-        slot[o.i] = new CT(file_path(o)); return "ok"; }
+        slot[o.i] = new CT(file_path(o), CA<void>(g_next_arena++)); return "ok"; }
       case 'R': if (!a) return "skip"; return a->read_fits(file_path(o)) ? "tt" : "ff";
       case 'M': { if (!a) return "skip"; std::vector<char> buf = (o.kind == 1) ? slurp(files[o.file].garbage) : slurp(file_path(o));
         return a->read_fits_mem(buf.data(), buf.size()) ? "tt" : "ff"; }
